@@ -424,9 +424,31 @@ class _A:
         return explore_attitude(case)
 
 
-SUBCHECKS = {"rate": _Rate(), "zint": _Z(), "velocity": _V(), "sticks": _St(), "attitude": _A()}
+# module constants a user may set before deriving (lighter vehicle, other planet, enabled height integrator, other limits)
+OVERRIDES = [dict(rdd2=dict(m=0.8, g=3.7, z_integral_max=5.0, kp_pos=2.5), ll=dict(m=0.8, g=3.7, z_integral_max=5.0)),
+             dict(rdd2=dict(m=12, g=9.8, z_integral_max=2, rollpitch_max=35, yaw_rate_max=120), ll=dict(m=12, z_integral_max=2))]  # integer-valued
+
+_zint_ov = core.overridden(mods, _M, explore_zint)
+_sticks_ov = core.overridden(mods, _M, explore_sticks)
+
+
+class _Ov:
+    chunks = 1
+
+    def cases(self, tier, seed):
+        return [dict(sub="overrides", which=w, tier=tier, seed=seed, override=o) for o in OVERRIDES for w in ("zint", "sticks")]
+
+    def run(self, case):
+        r = (_zint_ov if case["which"] == "zint" else _sticks_ov)(dict(case, sub="overrides"))
+        for f in r.fails:
+            f["sub"] = "overrides"
+            f["case"] = case
+        return r
+
+
+SUBCHECKS = {"rate": _Rate(), "zint": _Z(), "velocity": _V(), "sticks": _St(), "attitude": _A(), "overrides": _Ov()}
 REPLAY = {"rate": lambda c: explore_rate(c).fails, "zint": lambda c: explore_zint(c).fails, "velocity": lambda c: explore_velocity(c).fails,
-          "sticks": lambda c: explore_sticks(c).fails, "attitude": lambda c: explore_attitude(c).fails}
+          "sticks": lambda c: explore_sticks(c).fails, "attitude": lambda c: explore_attitude(c).fails, "overrides": lambda c: _Ov().run(c).fails}
 
 # results must not depend on which library calls were made earlier in the process (see mc/order.py)
 from .. import order as _order  # noqa: E402
@@ -434,3 +456,10 @@ from .. import order as _order  # noqa: E402
 _ORDER = _order.OrderSub("C15", "control", None)
 SUBCHECKS["order"] = _ORDER
 REPLAY["order"] = _ORDER.replay
+
+# keyword / dict calls bind the documented names (see mc/kw.py)
+from .. import kw as _kw  # noqa: E402
+
+_KW = _kw.KwSub("control")
+SUBCHECKS["keywords"] = _KW
+REPLAY["keywords"] = _KW.replay
